@@ -190,7 +190,7 @@ func (w *wireChecker) object(root *sRoot, v *jval, m protoreflect.Message, path 
 			w.fail("c08-members:unset-emitted", path, "member %q emitted although unset", mem.key)
 			continue
 		}
-		w.prop(p, mem.val, m, path+"."+mem.key)
+		w.prop(p, mem.val, m, subPath(path, "."+mem.key))
 	}
 	for _, p := range root.props {
 		if propPresent(p, m) && !seen[p.json] {
@@ -237,7 +237,7 @@ func (w *wireChecker) oneof(root *sRoot, v *jval, m protoreflect.Message, path s
 		w.fail("c08-oneof-shape", path, "key %q named by !type is missing", p.json)
 		return
 	}
-	w.prop(p, val, m, path+"."+p.json)
+	w.prop(p, val, m, subPath(path, "."+p.json))
 }
 
 var reTimestamp = regexp.MustCompile(`^\d{4}-\d{2}-\d{2}T\d{2}:\d{2}:\d{2}(\.\d{1,9})?Z$`)
@@ -343,7 +343,7 @@ func (w *wireChecker) field(f *sField, v *jval, pv protoreflect.Value, path stri
 			return
 		}
 		for i, e := range v.elems {
-			w.field(f.item, e, l.Get(i), fmt.Sprintf("%s[%d]", path, i))
+			w.field(f.item, e, l.Get(i), subPath(path, fmt.Sprintf("[%d]", i)))
 		}
 	case "map":
 		if v.kind != jObj {
@@ -363,7 +363,7 @@ func (w *wireChecker) field(f *sField, v *jval, pv protoreflect.Value, path stri
 				w.fail("c08-members:not-a-map-key", path, "key %q is not in the map", mem.key)
 				continue
 			}
-			w.field(f.item, mem.val, mv.Get(k), path+"{"+mem.key+"}")
+			w.field(f.item, mem.val, mv.Get(k), subPath(path, "{"+mem.key+"}"))
 		}
 		if len(seen) != mv.Len() {
 			w.fail("c08-members:set-omitted", path, "map has %d entries, %d emitted", mv.Len(), len(seen))
@@ -410,9 +410,9 @@ func (w *wireChecker) any(f *sField, v *jval, am protoreflect.Message, path stri
 		return
 	}
 	if ir.isOneof {
-		w.oneof(ir, val, im, path+".value")
+		w.oneof(ir, val, im, subPath(path, ".value"))
 	} else {
-		w.object(ir, val, im, path+".value")
+		w.object(ir, val, im, subPath(path, ".value"))
 	}
 }
 
